@@ -355,8 +355,54 @@ func isFreshExpr(info *types.Info, e ast.Expr) bool {
 				return true
 			}
 		}
+		// a call of a plain allocating constructor of the module: `func NewT(...) *T { return &T{...} }`
+		var fid *ast.Ident
+		switch f := ast.Unparen(x.Fun).(type) {
+		case *ast.Ident:
+			fid = f
+		case *ast.SelectorExpr:
+			fid = f.Sel
+		}
+		if fid != nil {
+			if fo, ok := info.Uses[fid].(*types.Func); ok && allocCtors[fo.Origin()] {
+				return true
+			}
+		}
 	}
 	return false
+}
+
+// allocCtors: functions (no receiver) of the module whose whole body is `return &T{...}` / `return T{...}`: the result is
+// a fresh allocation nobody else holds yet, whatever the arguments
+var allocCtors = map[*types.Func]bool{}
+
+func collectAllocCtors(pkgs []*packages.Package) {
+	for _, p := range pkgs {
+		for _, f := range p.Syntax {
+			for _, d := range f.Decls {
+				fd, ok := d.(*ast.FuncDecl)
+				if !ok || fd.Body == nil || fd.Recv != nil || len(fd.Body.List) != 1 {
+					continue
+				}
+				rs, ok := fd.Body.List[0].(*ast.ReturnStmt)
+				if !ok || len(rs.Results) != 1 {
+					continue
+				}
+				switch r := ast.Unparen(rs.Results[0]).(type) {
+				case *ast.CompositeLit:
+				case *ast.UnaryExpr:
+					if _, isLit := ast.Unparen(r.X).(*ast.CompositeLit); r.Op != token.AND || !isLit {
+						continue
+					}
+				default:
+					continue
+				}
+				if fo, _ := p.TypesInfo.Defs[fd.Name].(*types.Func); fo != nil {
+					allocCtors[fo] = true
+				}
+			}
+		}
+	}
 }
 
 func isPkgLevel(o types.Object) bool {
@@ -1110,6 +1156,7 @@ func main() {
 	}
 	a.computeShared(roots)
 
+	collectAllocCtors(a.pkgs)
 	// plain getters of slice / map fields of shared types
 	a.getters = map[*types.Func]aliasInfo{}
 	a.gettersByName = map[string][]aliasInfo{}
